@@ -1,14 +1,16 @@
 //! C16 contract of watch_membership_changes, class B: two consecutive snapshots over the id
-//! universe {0 = self, 1, 2}; the first is ARBITRARY (so the second iteration is the step
-//! prev -> cur from an arbitrary previous state), each member has one of two addresses (address change)
-//! and one of two data centres.
+//! universe {0 = self, 1, 2}; the first is ARBITRARY within the bound (so the second iteration is the step
+//! prev -> cur from an arbitrary previous state). WHO is present in which snapshot is concrete per harness
+//! (16 presence patterns of the two other nodes: `mb_step_<p1><p2><c1><c2>`), everything else is symbolic:
+//! each present member has one of THREE addresses from a shared pool (address change, and an address
+//! taken over by another node id, are covered; members of one snapshot have distinct addresses) and one of two data centres.
 //!   joined(prev,cur) = members of cur (other than self) whose (id, addr) is not in prev, as in cur
 //!   left(prev,cur)   = members of prev (other than self) whose (id, addr) is not in cur, AS IN PREV
-//!   set_nodes gets exactly the data-centre layout of cur; every departed address is disconnected;
-//!   a consumer that removes `left` then inserts `joined` holds exactly others(cur).
+//!   set_nodes gets exactly the data-centre layout of cur; every departed address that nobody uses any more is
+//!   disconnected and nothing but departed addresses is; a consumer that removes `left` then inserts `joined` holds exactly others(cur).
 use super::*;
 
-const NID: usize = 2;
+const NID: usize = 3;
 const SELF_ID: NodeId = 0;
 /// identities of the data-centre names "a" and "b"
 const DCS: [DcName; 2] = [DcName(0x6100_0000_0000_0001), DcName(0x6200_0000_0000_0001)];
@@ -16,27 +18,37 @@ const DCS: [DcName; 2] = [DcName(0x6100_0000_0000_0001), DcName(0x6200_0000_0000
 #[derive(Clone, Copy)]
 struct AbsMember {
     present: bool,
-    alt_addr: bool,
+    /// index into the shared address pool
+    addr: u8,
     dc: u8,
 }
 type AbsSnap = [AbsMember; NID];
+const ABSENT: AbsMember = AbsMember { present: false, addr: 0, dc: 0 };
 
-fn any_snap() -> AbsSnap {
-    let mut s = [AbsMember { present: false, alt_addr: false, dc: 0 }; NID];
+/// a snapshot with the given (concrete) presence of nodes 1 and 2; self is always a member; addresses and data centres arbitrary
+fn any_snap(p1: bool, p2: bool) -> AbsSnap {
+    let present = [true, p1, p2];
+    let mut s = [ABSENT; NID];
     let mut i = 0;
     while i < NID {
-        s[i] = AbsMember { present: kani::any(), alt_addr: kani::any(), dc: kani::any() };
-        kani::assume(s[i].dc < 2);
+        if present[i] {
+            s[i] = AbsMember { present: true, addr: kani::any(), dc: kani::any() };
+            kani::assume(s[i].dc < 2 && s[i].addr < 3);
+        }
         i += 1;
     }
+    // live members of one snapshot do not share an address
+    kani::assume(!(s[0].present && s[1].present && s[0].addr == s[1].addr));
+    kani::assume(!(s[0].present && s[2].present && s[0].addr == s[2].addr));
+    kani::assume(!(s[1].present && s[2].present && s[1].addr == s[2].addr));
     s
 }
-fn addr_of(id: usize, alt: bool) -> SocketAddr {
-    vcoll::vkey::OpaqueId(((10u64 << 24 | id as u64) << 16) | if alt { 9002 } else { 9001 })
+fn addr_of(a: u8) -> SocketAddr {
+    vcoll::vkey::OpaqueId(((10u64 << 24) << 16) | (9001 + a as u64))
 }
 fn member_of(id: usize, m: &AbsMember) -> ClusterMember {
     let dc = if m.dc == 0 { DCS[0] } else { DCS[1] };
-    ClusterMember { node_id: id as NodeId, public_addr: addr_of(id, m.alt_addr), data_center: dc }
+    ClusterMember { node_id: id as NodeId, public_addr: addr_of(m.addr), data_center: dc }
 }
 fn build(s: &AbsSnap) -> NodeMembership {
     let mut m = NodeMembership::new();
@@ -51,7 +63,10 @@ fn build(s: &AbsSnap) -> NodeMembership {
 }
 /// (id, addr) of `s[i]` is in the "other nodes" set of snapshot t
 fn pair_in(s: &AbsSnap, i: usize, t: &AbsSnap) -> bool {
-    i != SELF_ID as usize && t[i].present && t[i].alt_addr == s[i].alt_addr
+    i != SELF_ID as usize && t[i].present && t[i].addr == s[i].addr
+}
+fn addr_used(a: u8, t: &AbsSnap) -> bool {
+    (t[0].present && t[0].addr == a) || (t[1].present && t[1].addr == a) || (t[2].present && t[2].addr == a)
 }
 fn count_member(v: &Vec<ClusterMember>, m: &ClusterMember) -> usize {
     let mut c = 0;
@@ -83,11 +98,9 @@ fn check_delta(d: &MembershipChange, prev: &AbsSnap, cur: &AbsSnap) {
     assert!(d.joined.len() == nj && d.left.len() == nl, "nothing else is reported");
 }
 
-#[kani::proof]
-#[kani::unwind(5)]
-fn mb_delta_step() {
-    let prev = any_snap();
-    let cur = any_snap();
+fn delta_step(pp1: bool, pp2: bool, cp1: bool, cp2: bool) {
+    let prev = any_snap(pp1, pp2);
+    let cur = any_snap(cp1, cp2);
     let mut items = Vec::new();
     items.push(build(&prev));
     items.push(build(&cur));
@@ -98,7 +111,7 @@ fn mb_delta_step() {
     watch_membership_changes(SELF_ID, network.clone(), selector.clone(), stats.clone(), WatchStream::from_items(items), tx.clone());
     let log = tx.log();
     assert!(log.len() == 2, "one change event per snapshot");
-    let empty = [AbsMember { present: false, alt_addr: false, dc: 0 }; NID];
+    let empty = [ABSENT; NID];
     check_delta(&log[0], &empty, &prev);
     check_delta(&log[1], &prev, &cur);
 
@@ -114,22 +127,30 @@ fn mb_delta_step() {
     }
     let mut i = 1;
     while i < NID {
-        let want = if cur[i].present { Some(addr_of(i, cur[i].alt_addr)) } else { None };
+        let want = if cur[i].present { Some(addr_of(cur[i].addr)) } else { None };
         assert!(live[i] == want, "events add up to the live membership");
         i += 1;
     }
 
-    // every departed address is disconnected (second transition)
+    // second transition: a departed address nobody uses any more is disconnected; nothing but departed addresses is
     let mut i = 1;
-    let mut want_disc = 0;
     while i < NID {
-        if prev[i].present && !pair_in(&prev, i, &cur) {
-            assert!(network.log().contains(&addr_of(i, prev[i].alt_addr)));
-            want_disc += 1;
+        if prev[i].present && !pair_in(&prev, i, &cur) && !addr_used(prev[i].addr, &cur) {
+            assert!(network.log().contains(&addr_of(prev[i].addr)), "the connection to a departed address is dropped");
         }
         i += 1;
     }
-    assert!(network.log().len() == want_disc, "only departed addresses are disconnected");
+    for a in network.log().iter() {
+        let mut departed = false;
+        let mut i = 1;
+        while i < NID {
+            if prev[i].present && !pair_in(&prev, i, &cur) && addr_of(prev[i].addr) == *a {
+                departed = true;
+            }
+            i += 1;
+        }
+        assert!(departed, "only departed addresses are disconnected");
+    }
 
     // set_nodes receives exactly the data-centre layout of cur (second call)
     let layouts = selector.log();
@@ -143,7 +164,7 @@ fn mb_delta_step() {
         while i < NID {
             if cur[i].present && cur[i].dc as usize == d {
                 want += 1;
-                let got = lay.get(&DCS[d]).map(|ns| ns.contains(&addr_of(i, cur[i].alt_addr)));
+                let got = lay.get(&DCS[d]).map(|ns| ns.contains(&addr_of(cur[i].addr)));
                 assert!(got == Some(true), "every current member is in its data centre's node list");
             }
             i += 1;
@@ -156,11 +177,43 @@ fn mb_delta_step() {
         d += 1;
     }
     assert!(lay.len() == ndc, "no stale data centre in the layout");
-    kani::cover!(prev[1].present && !cur[1].present, "a node leaves");
-    kani::cover!(!prev[1].present && cur[1].present, "a node joins");
-    kani::cover!(prev[1].present && cur[1].present && prev[1].dc != cur[1].dc && prev[1].alt_addr == cur[1].alt_addr, "data centre change only");
-    kani::cover!(prev[1].present && cur[1].present && prev[1].alt_addr != cur[1].alt_addr, "address change");
+    // vacuity guards, per presence pattern
+    kani::cover!(true, "pattern reachable");
+    if pp1 && cp1 {
+        kani::cover!(prev[1].addr != cur[1].addr, "address change");
+        kani::cover!(prev[1].addr == cur[1].addr && prev[1].dc != cur[1].dc, "data centre change only");
+    }
+    if pp1 && !cp1 && cp2 && !pp2 {
+        kani::cover!(prev[1].addr == cur[2].addr, "a departed node's address is taken over by a node that joins");
+    }
 }
+
+macro_rules! step_harness {
+    ($name:ident, $a:expr, $b:expr, $c:expr, $d:expr) => {
+        #[kani::proof]
+        #[kani::unwind(6)]
+        fn $name() {
+            delta_step($a, $b, $c, $d);
+        }
+    };
+}
+// mb_step_<prev1><prev2><cur1><cur2>: presence of nodes 1 and 2 in the previous and the current snapshot
+step_harness!(mb_step_0000, false, false, false, false);
+step_harness!(mb_step_0001, false, false, false, true);
+step_harness!(mb_step_0010, false, false, true, false);
+step_harness!(mb_step_0011, false, false, true, true);
+step_harness!(mb_step_0100, false, true, false, false);
+step_harness!(mb_step_0101, false, true, false, true);
+step_harness!(mb_step_0110, false, true, true, false);
+step_harness!(mb_step_0111, false, true, true, true);
+step_harness!(mb_step_1000, true, false, false, false);
+step_harness!(mb_step_1001, true, false, false, true);
+step_harness!(mb_step_1010, true, false, true, false);
+step_harness!(mb_step_1011, true, false, true, true);
+step_harness!(mb_step_1100, true, true, false, false);
+step_harness!(mb_step_1101, true, true, false, true);
+step_harness!(mb_step_1110, true, true, true, false);
+step_harness!(mb_step_1111, true, true, true, true);
 
 /// D6 (KNOWN FINDING, see known_findings.txt): the deltas travel on a LATEST-VALUE channel (tokio::sync::watch). Concrete history:
 /// node 1 joins (first change), then a second snapshot with the same membership is processed before the subscriber reads.
@@ -168,11 +221,11 @@ fn mb_delta_step() {
 /// property promises the live membership "no matter how slowly it reads". Demonstrated on the real tokio channel and the real
 /// function in notes/D6_demo.diff. This obligation FAILS on the pinned tree by design and is reported as KNOWN-FINDING.
 #[kani::proof]
-#[kani::unwind(5)]
+#[kani::unwind(6)]
 fn mb_slow_subscriber() {
-    let m1 = AbsMember { present: true, alt_addr: false, dc: 0 };
-    let me = AbsMember { present: true, alt_addr: false, dc: 0 };
-    let snap: AbsSnap = [me, m1];
+    let m1 = AbsMember { present: true, addr: 1, dc: 0 };
+    let me = AbsMember { present: true, addr: 0, dc: 0 };
+    let snap: AbsSnap = [me, m1, ABSENT];
     let mut items = Vec::new();
     items.push(build(&snap));
     items.push(build(&snap));
@@ -191,7 +244,7 @@ fn mb_slow_subscriber() {
             live[m.node_id as usize] = Some(m.public_addr);
         }
     }
-    assert!(live[1] == Some(addr_of(1, false)), "D6: a subscriber that reads after two membership changes were published holds the live membership");
+    assert!(live[1] == Some(addr_of(1)), "D6: a subscriber that reads after two membership changes were published holds the live membership");
 }
 
 // native replay of Kani counterexamples (tools/replay.py writes the file)
